@@ -294,3 +294,25 @@ v('c05-nullable-after', ['C05'], RX, "            if r.nullable {\n             
 v('c05-no-reverse', ['C05'], LQF, "            .map(|(node, label)| (node.clone(), label.clone()))\n            .collect();\n        result.reverse();", "            .map(|(node, label)| (node.clone(), label.clone()))\n            .collect();", 'C05.R4/LabeledQueue::make_path')
 v('c05-edge-iter-stuck', ['C05'], LQF, "self.last_edge = self.queue.map.get(node).unwrap();\n                Some((node, label))", "Some((node, label))", 'C05.R4/EdgeIterator')
 v('c05-pop-back', ['C05'], LQF, "    pub fn pop(&mut self) -> Option<T> {\n        self.queue.pop_front()", "    pub fn pop(&mut self) -> Option<T> {\n        self.queue.pop_back()", 'C05.R4/LabeledQueue::pop')
+
+# ---- C10
+SREF = 'src/smt_regular_expressions.rs'
+v('c10-found-end', ['C10'], MA, "                return SearchResult::Found(i, j + 1);", "                return SearchResult::Found(i, j);", 'C10.R1')
+v('c10-allow-empty', ['C10'], SREF, "match find_match(r, s1, 0, true) {", "match find_match(r, s1, 0, false) {", 'C10.R2/str_replace_re')
+v('c10-resume', ['C10'], SREF, "        x.extend_from_slice(s2);\n        i = k;", "        x.extend_from_slice(s2);\n        i = j + 1;", 'C10.R2/str_replace_re_all')
+v('c10-nullable-test-late', ['C10'], MA, """            if p.nullable {
+                return SearchResult::Found(i, j + 1);
+            }
+            if p.is_empty() {
+                break;
+            }""", """            if p.is_empty() {
+                break;
+            }
+            if p.nullable && j + 1 < s_len {
+                return SearchResult::Found(i, j + 1);
+            }""", 'C10.R1')
+v('c10-restart-pattern', ['C10'], MA, "            p = manager.char_derivative(p, string[j]);", "            p = manager.char_derivative(pattern, string[j]);", 'C10.R1')
+v('c10-early-without-flag', ['C10'], MA, "    if allow_empty && pattern.nullable {", "    if pattern.nullable {", 'C10.R1')
+v('c10-outer-skip', ['C10'], MA, "            j += 1;\n        }\n        i += 1;", "            j += 1;\n        }\n        i += 2;", 'C10.R1')
+v('c10-all-empty-allowed', ['C10'], SREF, "find_match(r, s1, i, false)", "find_match(r, s1, i, true)", 'C10.R2/str_replace_re_all')
+v('c10-splice', ['C10'], SREF, "            x.extend_from_slice(&s1[..i]);\n            x.extend_from_slice(s2.as_ref());\n            x.extend_from_slice(&s1[j..]);", "            x.extend_from_slice(&s1[..i]);\n            x.extend_from_slice(s2.as_ref());\n            x.extend_from_slice(&s1[i..]);", 'C10.R3/str_replace_re')
